@@ -3,7 +3,10 @@
 // bubbles and a goroutine id accessor for the cooperative scheduler.
 package runtime
 
-import "internal/runtime/atomic"
+import (
+	"internal/runtime/atomic"
+	"unsafe"
+)
 
 var simSelState atomic.Uint64
 
@@ -30,3 +33,11 @@ func simselrandn(n uint32) uint32 {
 	x ^= x >> 31
 	return uint32((uint64(uint32(x)) * uint64(n)) >> 32)
 }
+
+// SimSetLocal / SimGetLocal keep one pointer per goroutine for the simulator.
+// The profiler-label slot of the g is used (mediamtx does not use profiler
+// labels); new goroutines inherit it from their creator.
+func SimSetLocal(p unsafe.Pointer) { getg().labels = p }
+
+// SimGetLocal returns the pointer stored by SimSetLocal.
+func SimGetLocal() unsafe.Pointer { return getg().labels }
